@@ -378,10 +378,14 @@ func genRequest(rng *rand.Rand, tok string, big bool) *genReq {
 		if h == "Trailer" {
 			val = "X-Hop" + strconv.Itoa(i) + "-" + tok
 		}
+		if h == "Connection" {
+			// option lists are also written without optional whitespace, or with more of it
+			val = []string{val, "keep-alive," + val, "x-unrelated-option ,\t" + val + ",x-another-one", val + " , keep-alive"}[rng.Intn(4)]
+		}
 		g.Hop = append(g.Hop, rawhttp.Field{Name: h, Value: val})
 		if h == "Connection" && rng.Intn(2) == 0 {
 			// the field the client nominates as hop-by-hop is really sent (under a differently-cased name)
-			g.Hop = append(g.Hop, rawhttp.Field{Name: "HOP0-" + strings.ToUpper(tok), Value: "nominated-" + val})
+			g.Hop = append(g.Hop, rawhttp.Field{Name: "HOP0-" + strings.ToUpper(tok), Value: "nominated-hop0-" + tok})
 			hopShape |= 1 << 8
 		}
 	}
